@@ -73,17 +73,18 @@ impl<'a> GenWork<'a> {
         // add params
         script_gen.params.extend(params.iter().cloned());
 
-        // calc preds for script
-        let preds = 
-        live_gen.make_where_clause().predicates.iter()
-            .filter_map(|wp| {
-                if param_set.iter().any(|p| crate::model::includes(wp,p)){
-                    None
-                } else { Some( wp.clone())}
-            });
+        // calc preds for script and for private
+        // a predicate that mentions a private parameter follows 
+        // that parameter to where it is declared ( methods `direct` and `play` ) 
+        let (private_preds, preds): (Vec<_>,Vec<_>) = 
+        live_gen.make_where_clause().predicates.iter().cloned()
+            .partition(|wp| param_set.iter().any(|p| crate::model::includes(wp,p)));
 
         // add preds 
         script_gen.make_where_clause().predicates.extend(preds);
+        if !private_preds.is_empty(){
+            private_gen.make_where_clause().predicates.extend(private_preds);
+        }
         
         // declaration order, so that the expansion is deterministic
         let phantom_params = private_gen.params.iter().cloned().collect::<Vec<_>>();
